@@ -39,9 +39,13 @@ SOURCES = ['src/transform/estimation/FindRigidTransformationByICP.cpp',
            'src/pointset/algorithms/PointSetPreconditioner.cpp', 'src/pointset/algorithms/PreconditionedPointSet.cpp']
 _REPO = os.environ.get('VERIF_REPO', '/repo')
 EXTRA_FLAGS = ['-DC06_SCAN_PATH="%s"' % os.path.join(_REPO, 'test/data/scan2d.txt')]
-PROOF_MODULES = ['RomeaProofs.Properties.C06']
+PROOF_MODULES = ['RomeaProofs.Properties.C06', 'RomeaProofs.Bridge.C06', 'RomeaProofs.Bridge.C06Cor']
 HANG_SECS = 60
-TRUSTED = ['harness/c06.cpp: scripted RansacModel subclass, subclasses exposing protected members of '
+TRUSTED = ['tools/cxx2lean_state.py translates the RansacIterations constructor / update / get (with EPSILON) from the working tree into '
+           'RomeaModel/Generated/SrcC06.lean on every run; RomeaProofs/Bridge/C06*.lean prove them equal to the model\'s Iterations '
+           '(under: integer -> scalar conversion agrees for naturals, truncated quotient non-negative) and restate the bound theorems; '
+           'Ransac::estimateModel is NOT translated',
+           'harness/c06.cpp: scripted RansacModel subclass, subclasses exposing protected members of '
            'RansacRigidTransformationModel / FindRigidTransformationByICP, and access to the PRIVATE members of '
            'RansacRandomCorrespondences (weights_, cumSumWeights_, scale_, randomGenerator_, uniformDistribution_, resetWeights_) '
            'through explicit template instantiation (no hook in /repo)',
@@ -174,8 +178,11 @@ def regen(ctx):
             f.write(text)
     if fell_back:
         ctx['notes'].append('C06 constants: scraping failed for %s; committed fallback values used' % ', '.join(fell_back))
-    return {'file': 'RomeaModel/Generated/ConstantsC06.lean', 'values': {k: (list(x) if isinstance(x, tuple) else x) for k, x in vals.items()},
+    info = {'file': 'RomeaModel/Generated/ConstantsC06.lean', 'values': {k: (list(x) if isinstance(x, tuple) else x) for k, x in vals.items()},
             'fell_back': fell_back, 'rewritten': old != text}
+    import bridge
+    info.update(bridge.regen_bridge(ctx, bridge.SPECS['C06']))      # RansacIterations translated (DESIGN.md 2.5b)
+    return info
 
 
 # ------------------------------------------------------------------------------------------- generators
